@@ -18,6 +18,9 @@ type c02Case struct {
 	MemSeed uint32      `json:"mem_seed"`
 	Patches []rig.Patch `json:"patches"`
 	Actions []string    `json:"actions"` // "step", "irq", "nmi", "reset", "fork"
+	// WdmIrq: both CPUs have an OnWDM hook that raises an IRQ from inside the step when the WDM operand is odd
+	// (a device reacting to the instruction)
+	WdmIrq bool `json:"wdm_irq,omitempty"`
 }
 
 type c02Stats struct {
@@ -62,6 +65,22 @@ func c02Run(c *c02Case, synth *rig.Synth, nextAction func() string, stats *c02St
 	m1.DoLog = true
 	if synth != nil {
 		synth.Mem = m1
+	}
+	p0.C.OnWDM, a0.C.OnWDM = nil, nil
+	if c.WdmIrq {
+		// installed on the singletons (forks copy them and keep calling the CPU the hook was made for, which is then
+		// out of use: so the hook targets whichever CPU is current)
+		p0.C.OnWDM = func(b byte) {
+			if b&1 == 1 {
+				pri.TriggerIRQ()
+			}
+		}
+		a0.C.OnWDM = func(b byte) {
+			if b&1 == 1 {
+				alt.TriggerIRQ()
+			}
+		}
+		defer func() { p0.C.OnWDM, a0.C.OnWDM = nil, nil }()
 	}
 	compare := func(k int, what string) error {
 		r1, r2 := pri.Raw(), alt.Raw()
@@ -228,6 +247,17 @@ func c02GenRaw(d rig.Drawer, op0 byte) rig.Raw {
 		}
 	}
 	r.I = byte(d.Intn("iflag", 2))
+	// the running cycle total the CPUs start from: zero, or close below 2^16 / 2^32 / 2^63 / 2^64
+	switch d.Intn("allcycles", 8) {
+	case 0:
+		r.AllCycles = 1<<16 - uint64(d.Intn("ac-below", 12))
+	case 1:
+		r.AllCycles = 1<<32 - uint64(d.Intn("ac-below", 12))
+	case 2:
+		r.AllCycles = 1<<63 - uint64(d.Intn("ac-below", 12))
+	case 3:
+		r.AllCycles = ^uint64(0) - uint64(d.Intn("ac-below", 12))
+	}
 	return r
 }
 
@@ -247,6 +277,13 @@ func TestC02(t *testing.T) {
 				op0 := byte(d.U32("op0-pre"))
 				syn.ForceFirst(op0)
 				c := c02Case{MemSeed: d.U32("memseed")}
+				if d.Intn("wdm-irq", 12) == 5 {
+					// the first instruction is a WDM whose hook raises an IRQ from inside the step
+					c.WdmIrq = true
+					op0 = 0x42
+					syn.ForceFirst(op0)
+					ev.Class("wdm-hook-raises-irq-inside-the-step")
+				}
 				c.Init = c02GenRaw(d, op0)
 				left := 1 + d.Intn("nacts", maxActs)
 				var st c02Stats
